@@ -562,12 +562,17 @@ def linearity_obligations(R):
         f = rng.standard_normal(T.shape)
         g = rng.standard_normal(T.shape)
         fi = rng.integers(-5, 6, size=T.shape)
-        a_f = M.sYlm_coefficients(s_, lmax, f, T, P, dth, dph)
-        a_fc = M.sYlm_coefficients(s_, lmax, f.astype(complex), T, P, dth, dph)
-        a_g = M.sYlm_coefficients(s_, lmax, g.astype(complex), T, P, dth, dph)
-        a_fg = M.sYlm_coefficients(s_, lmax, f + 1j * g, T, P, dth, dph)
-        a_i = M.sYlm_coefficients(s_, lmax, fi, T, P, dth, dph)
-        a_ic = M.sYlm_coefficients(s_, lmax, fi.astype(complex), T, P, dth, dph)
+        def co(arr, what):
+            # an exception raised by the library for samples of some dtype is a verdict on the library, not a failure of this check
+            try:
+                return M.sYlm_coefficients(s_, lmax, arr.copy(), T.copy(), P.copy(), dth.copy(), dph)
+            except Exception as e:
+                bad.append(f's={s_}: raises {type(e).__name__} for {what} samples: {str(e)[:100]}')
+                return None
+        a_f, a_fc, a_g = co(f, 'real-dtype'), co(f.astype(complex), 'complex'), co(g.astype(complex), 'complex')
+        a_fg, a_i, a_ic = co(f + 1j * g, 'complex'), co(fi, 'integer-dtype'), co(fi.astype(complex), 'complex')
+        if any(a is None for a in (a_f, a_fc, a_g, a_fg, a_i, a_ic)):
+            continue
         for k in a_fc:
             d1 = abs(a_f[k] - a_fc[k])
             d2 = abs(a_fg[k] - (a_fc[k] + 1j * a_g[k]))
